@@ -47,7 +47,10 @@ CONV_EXPLICIT = {"make_external_component", "make_external_symbol", "escape_go_k
                  "to_csharp_ident_upper",
                  # semver-canonicalised interface ids (`a:b/i@1` for `a:b/i@1.4.2`) belong to the cm32p2 "standard"
                  # mangling only; every backend here writes legacy names, which carry the full id (name_world_key)
-                 "name_canonicalized_world_key", "canonicalized_id_of"}
+                 "name_canonicalized_world_key", "canonicalized_id_of",
+                 # Function::item_name() strips the `[method]r.` / `[static]r.` / `[constructor]` part of a function's
+                 # name: it is a display name, never the name the component model uses for the core item
+                 "item_name"}
 CONV_RE = re.compile(r"^to_[a-z_]*(case|ident)$")
 CASEFOLD = {"to_lowercase": str.lower, "to_uppercase": str.upper, "to_ascii_lowercase": str.lower,
             "to_ascii_uppercase": str.upper}
